@@ -9,17 +9,22 @@ import Driver.Indent
 import Driver.Print
 import Driver.Suppress
 import Driver.Splice
+import Driver.Topo
+import Driver.Select
+import Driver.Worker
+import Driver.Lsp
+import Driver.Navigation
 import Driver.TreeIO
 import Driver.RuleIO
 
 open Lean Driver
 
 def allOps : List (String × Handler) :=
-  notationOps ++ indentOps ++ printOps ++ suppressOps ++ spliceOps
+  notationOps ++ indentOps ++ printOps ++ suppressOps ++ spliceOps ++ topoOps ++ selectOps ++ workerOps ++ lspOps
 
 /-- ops that read or extend the driver state (registered documents) -/
 def allStateOps : List (String × SHandler) :=
-  treeOps ++ ruleOps ++ ruleOracleOps ++ scanOps
+  treeOps ++ ruleOps ++ ruleOracleOps ++ scanOps ++ isolateOps ++ navigationOps
 
 def derr (e : String) : String := (Json.mkObj [("driver_error", Json.str e)]).compress
 
